@@ -2,5 +2,5 @@ import Decstr.Spec.Basic
 import Decstr.Spec.Judge
 import Decstr.Model.Api
 import Decstr.Driver
-import Decstr.Proofs.Basic
+import Decstr.Proofs.All
 import Decstr.Props
